@@ -15,7 +15,7 @@ RULE = (
     'cases: (a) EXHAUSTIVE enumeration of every single-atom (site, inner-site) history of length 2..Lmax over '
     '3 sites + no-site (7 per-frame options), realised geometrically (atom placed in the inner sphere, the outer '
     'shell or away from all sites) and pushed through the public pipeline Trajectory.transitions_between_sites '
-    'in batches (one atom per history) and, for the shorter lengths, one history per call; (b) random multi-atom '
+    'in batches (one atom per history) and, for the shorter lengths, one history per call; (a2) overlapping site spheres of two labels (per-label radii) with inner fraction 0.3-0.8, where the inner site of an atom can differ from its assigned site; (b) random multi-atom '
     'hop histories on random lattices, site sets with 130 - 2100 sites visited at high indices, plus a few very long histories (33 000 - 131 000 frames: frame indices beyond the int16/uint16 ranges).  Oracle: loop model of the change-log computed from the states the object '
     'itself reports.  A case is non-trivial when it contains at least one site change; distinct = SHA-1 of the '
     '(states, inner states) arrays.'
